@@ -247,6 +247,22 @@ def run(ctx: Ctx) -> None:
             got = G.lex_kind(txt, acc2)
             ctx.check(got == kind, "T6", f"number spelling {txt} after another number", "mappyfile/mapfile.lark", kind, f"inside a number list the item {txt} is read as {got or 'several tokens / no token'} instead of one {kind}: the list is cut short and the rest becomes another keyword")
 
+    # a list expression {..} is stored as its source text: number items keep the spelling they were written
+    # with (the int / float callbacks have already replaced .value by a Python number at that point)
+    loc_l = ctx.repo.loc("transformer", ctx.repo.func("transformer.MapfileTransformer.list"))
+    for items in (("SIGNED_FLOAT", "2.50"), ("SIGNED_INT", "007")), (("SIGNED_INT", "+1"), ("SIGNED_FLOAT", "1e3")), (("SIGNED_FLOAT", "5."), ("SIGNED_INT", "3")):
+        def mk_items(items=items):
+            return [X.call1("float" if k == "SIGNED_FLOAT" else "int", lambda k=k, t=t: [models.token(k, t)]) for k, t in items]
+
+        want_l = "{%s}" % ",".join(t for _, t in items)
+        try:
+            res = X.call1("list", mk_items)
+            got_l = res.attrs["value"] if hasattr(res, "attrs") else res
+            got_l = got_l.describe() if hasattr(got_l, "describe") else got_l
+        except xform.CallbackFailed as ex:
+            got_l = f"failure: {ex}"
+        ctx.check(got_l == want_l, "T6", f"list expression {want_l} keeps the spelling of its number items", loc_l, want_l, f"the list expression {want_l} is stored as {got_l!r}: number items are re-rendered from their converted value, so what loads() returns is not what the Mapfile says")
+
 
 def _composite_contract(ctx: Ctx, e, X) -> None:
     repo = ctx.repo
